@@ -296,6 +296,11 @@ def dimension_reduction(name, seed, heuristic, tol_dr=1e-4, eig_reg=None):
         tols = [c[2] for c in getattr(w, 'heuristic_calls', []) if c[0] == 'prepare']
         if tols != [tol_dr]:
             fails.append(('C14', 'stated_tolerance', 'the objective is anchored with tolerance(s) %r, the stated tolerance is %r' % (tols, tol_dr)))
+        for ok_, n_other, got_, want_ in getattr(w, 'heuristic_objective', []):
+            if not ok_:
+                fails.append(('C14', 'heuristic_objective_is_weighted_trace', 'the objective installed by the heuristic is not <W, G>: at a random PSD matrix it evaluates to %s, <W, G> is %s '
+                              '(%s other solver variable(s) enter it)' % (got_, want_, n_other)))
+                break
         objs = getattr(w, 'solve_objectives', [])
         if len(objs) < 2 or objs[0] != 'Maximize' or any(o != 'Minimize' for o in objs[1:]):
             fails.append(('C14', 'heuristic_objective_replaced', 'problems handed to the solver by one call with the heuristic %s: %s; expected the model (Maximize), then the '
@@ -474,7 +479,9 @@ def _dual_table_accessors():
 def invalid_options(seed):
     fails = []
     for kw in ({'return_primal_or_dual': 'both'}, {'return_primal_or_dual': ''}, {'return_primal_or_dual': 'du'}, {'return_primal_or_dual': 'Dual'},
-               {'dimension_reduction_heuristic': 'nuclear'}, {'dimension_reduction_heuristic': 'logdet'}, {'dimension_reduction_heuristic': 'tr'}):
+               {'dimension_reduction_heuristic': 'nuclear'}, {'dimension_reduction_heuristic': 'logdet'}, {'dimension_reduction_heuristic': 'tr'},
+               {'dimension_reduction_heuristic': 'trace2'}, {'dimension_reduction_heuristic': 'trace10'}, {'dimension_reduction_heuristic': 'Trace'},
+               {'dimension_reduction_heuristic': 'logdet2x'}, {'dimension_reduction_heuristic': ' trace'}):
         pep, h = models.build('T_gd_ssc', seed)
         try:
             t = solve(pep, **kw)
